@@ -35,7 +35,7 @@ MIN_STATS = {'accesses_checked': 20000}
 ASSUMPTIONS = ['none beyond the generator bounds']
 
 PATHS = ['a', 'b', 'c/a', 'c/b', 'c/d/a', 'e/a/b/c', 'class', 'x y', '1a',
-         'c/x-y', 'f/g']
+         'c/x-y', 'f/g', '__default', 'c/__init__', '_p']
 VALUES = ['none', 'zero', 'false', 'empty_str', 'empty_list', 'empty_dict',
           'zero_float', 'nan', 'eq_false', 'eq_raises', 'bool_raises', 'obj',
           'world', 'eq_true', 'ne_weird']
